@@ -130,6 +130,8 @@ fn response_for<'a>(received: &'a [Recv], id: &RequestId) -> Vec<&'a Recv> {
 
 /// Execute `program` against the real router under `mode`.
 pub fn execute(program: &Program, mode: &mut Mode, budget_mult: usize) -> Result<Trace, SchedError> {
+    // unscheduled threads (none on the unchanged tree) start after a seeded delay of up to 2 ms
+    crate::entropy::wild_config(rng::fnv(&serde_json::to_string(&program.steps).unwrap_or_default()) | 1, 2000);
     let mut sys = System::start(server_params(program)).map_err(SchedError::Stuck)?;
     let mut tr = Trace::default();
     let mut seq: u64 = 0;
@@ -185,7 +187,17 @@ pub fn execute(program: &Program, mode: &mut Mode, budget_mult: usize) -> Result
         let view = sys.view(ready == Some(true));
         let choice = match mode.choose(&view)? {
             Some(c) => c,
-            None => break,
+            None => {
+                // nothing schedulable: if unscheduled threads are still alive, the system is not idle yet
+                if crate::entropy::wild_live() > 0 && crate::entropy::wait_wild_threads(2000) {
+                    drain!();
+                    if sys.view(step_ready(next_step, &tr, &step_req, &sys) == Some(true)).enabled().is_empty() {
+                        break;
+                    }
+                    continue;
+                }
+                break;
+            }
         };
         steps += 1;
         if steps > budget {
@@ -374,6 +386,9 @@ pub fn execute(program: &Program, mode: &mut Mode, budget_mult: usize) -> Result
     }
 
     // ---- quiescent (or nothing enabled). Final probes for C11, then orderly exit.
+    if !crate::entropy::wait_wild_threads(2000) {
+        *tr.probes.entry("unscheduled-thread-still-alive-at-quiescence".into()).or_default() += 1;
+    }
     if !tr.crashed && !tr.exited && program.final_probe {
         let keys: BTreeSet<String> = texts.keys().cloned().collect();
         let mut n = 0;
@@ -426,6 +441,10 @@ pub fn execute(program: &Program, mode: &mut Mode, budget_mult: usize) -> Result
         }
     }
     tr.blocked = sys.blocked.clone();
+    let wild = crate::entropy::wild_total();
+    if wild > 0 {
+        *tr.probes.entry("unscheduled-threads-created".into()).or_default() += wild as u64;
+    }
     tr.steps = steps as u64;
     Ok(tr)
 }
